@@ -26,7 +26,7 @@ func propSpecs() map[string]*PropSpec {
 	for k := int64(0); k < 56; k++ {
 		lib = append(lib, rs("H_Lib", k, 2))
 	}
-	for k := int64(0); k < 26; k++ {
+	for k := int64(0); k < 27; k++ {
 		if k == 13 {
 			continue // bare go statements: not supported by the engine (threads only through verif.Par)
 		}
@@ -309,6 +309,10 @@ func propSpecs() map[string]*PropSpec {
 				}
 			}
 		}
+		// cheap and independent of the schedule explosion a shared container can cause: first
+		for j := int64(0); j < 14; j++ {
+			r = append(r, RunSpec{Harness: "H_C14hist", Args: []int64{j}, Budget: 4000000, CrossObs: true})
+		}
 		if !full {
 			// the same program on both threads exercises every lazily initialised path twice at once
 			for i := int64(0); i < 8; i++ {
@@ -327,8 +331,8 @@ func propSpecs() map[string]*PropSpec {
 		ID: "C14", Title: "compilation is a pure, deterministic, thread-safe function", Threads: true, OwnsPanic: true,
 		Quick:    c14(false),
 		Thorough: c14(true),
-		Covers:   []string{"history-checked", "schedules-checked"},
-		Bounds: map[string]string{"quick": "7 pairs from 8 programs (successes, failures with sorted-key and position texts, a failed call with an unterminated escaped literal followed by a call with an escaped literal): call histories i,j,i,j; nil/zero/empty options; every iteration order of every map iterated (symbolic permutation); two concurrent Compile calls sharing their options, first use in the process (cold) and warm, every interleaving at the granularity of visible operations (sync operations and accesses to shared locations written by any explored execution); concurrent Parse/Scan",
+		Covers:   []string{"history-checked", "schedules-checked", "call-history-checked"},
+		Bounds: map[string]string{"quick": "7 pairs from 8 programs (successes, failures with sorted-key and position texts, a failed call with an unterminated escaped literal followed by a call with an escaped literal): call histories i,j,i,j; the result of each of 14 programs (also ones whose names meet the generated subquery names) in a process that compiled nothing before equals its result after any one other of them (every path starts from the initial process state; confirmed in fresh native processes); nil/zero/empty options; every iteration order of every map iterated (symbolic permutation); two concurrent Compile calls sharing their options, first use in the process (cold) and warm, every interleaving at the granularity of visible operations (sync operations and accesses to shared locations written by any explored execution); concurrent Parse/Scan",
 			"thorough": "all 64 pairs from 8 programs"},
 		Outside: []string{"more than two goroutines (follows from pairwise race-freedom; stated, not checked)", "the Go runtime's own scheduler and map implementation", "interleavings finer than visible operations (operations on thread-local or never-written data commute)"},
 		Stubs:   []string{"sync.Once / sync.Mutex: engine models with happens-before clocks", "map iteration order: symbolic permutation"},
